@@ -228,6 +228,9 @@ func closureEscapes(fn *ssa.Function) bool {
 	esc := false
 	found := false
 	instrsOf(par, func(in ssa.Instruction) {
+		if mc, ok := in.(*ssa.MakeClosure); ok && mc.Fn == ssa.Value(fn) {
+			return // the creation of the closure value is not a use of it
+		}
 		for _, op := range in.Operands(nil) {
 			if *op == nil || closureOf(*op) != fn {
 				continue
